@@ -11,7 +11,7 @@ Local Open Scope N_scope.
 Definition wf_progs (pp cp : list op) : Prop :=
   forallb prod_op pp = true /\ forallb cons_op cp = true.
 
-Notation LN l := (N.of_nat (length l)).
+Local Notation LN l := (N.of_nat (length l)).
 
 (* ------------------------------------------------------------------ arithmetic *)
 Lemma mod_window sz a b : sz <> 0 -> a <= b -> b < a + sz -> a mod sz = b mod sz -> a = b.
@@ -222,14 +222,15 @@ Proof.
 Qed.
 
 (* ------------------------------------------------------------------ one step preserves the invariant *)
-Ltac stepped := cbn [set_thr s_c s_p s_r goto finish t_cur t_ops t_out t_pc negb].
-Ltac mk :=
+Local Ltac stepped :=
+  cbn [set_thr s_c s_p s_r negb]; unfold goto, finish; cbn [set_thr s_c s_p s_r t_cur t_ops t_out t_pc negb].
+Local Ltac mk :=
   apply Inv_intro; cbn [t_out t_ops];
   rewrite ?enq_of_app, ?deq_of_app; cbn [enq_of deq_of OPFAIL SUCCESS]; rewrite ?app_nil_r;
   try assumption; try (unfold pinv; cbn [t_pc t_cur]; assumption);
   try (unfold cinv; cbn [t_pc t_cur]; assumption).
-Ltac pgoal := unfold pinv; cbn [t_pc t_cur].
-Ltac cgoal := unfold cinv; cbn [t_pc t_cur].
+Local Ltac pgoal := unfold pinv; cbn [t_pc t_cur].
+Local Ltac cgoal := unfold cinv; cbn [t_pc t_cur].
 
 Lemma step_P sz r p c : sz <> 0 -> Inv sz (mkS r p c) -> Inv sz (step' (mkS r p c) P).
 Proof.
@@ -248,7 +249,7 @@ Proof.
       try (split; [reflexivity|]; apply negb_true_iff, N.eqb_neq in Ho; exact Ho); reflexivity.
   - (* EnLdTail *)
     destruct Hp as (Hcur & Hv). stepped. mk. pgoal.
-    rewrite R1, R4, mod_succ by assumption. auto. Show.
+    rewrite R1, R4, mod_succ by assumption. auto.
   - (* EnCF *) stepped. mk.
   - (* EnLdHead *)
     destruct Hp as (Hcur & Hv & Hc1 & Hn).
@@ -297,3 +298,317 @@ Proof.
     destruct Hp as (Hcur & _). subst pcur.
     destruct (h =? r_tail r); stepped; mk; pgoal; reflexivity.
 Qed.
+
+Lemma step_C sz r p c : sz <> 0 -> Inv sz (mkS r p c) -> Inv sz (step' (mkS r p c) C).
+Proof.
+  intros Hsz HI. pose proof HI as (HR & HPo & HCo & Hp & Hc).
+  unfold enq_seq, deq_seq in HR, Hp, Hc. cbn [s_r s_p s_c] in HR, HPo, HCo, Hp, Hc.
+  destruct c as [cpc ccur cops cout]. cbn [t_out t_ops] in *.
+  unfold cinv in Hc; cbn [t_pc t_cur] in Hc.
+  pose proof HR as [R1 R2 R3 R4 R5 R6 R7 R8 R9].
+  unfold step', step; cbn [thr s_c s_r t_pc t_ops t_out].
+  destruct cpc; try contradiction.
+  - (* Idle *)
+    destruct cops as [|o rest]; [exact HI|].
+    stepped. cbn [forallb] in HCo. apply andb_true_iff in HCo as [Ho Hrest].
+    mk. cgoal.
+    destruct o; cbn [cons_op] in Ho; try discriminate; cbn [start]; reflexivity.
+  - (* DqLdHead *) stepped. mk. cgoal. auto.
+  - (* DqCF1 *) stepped. mk.
+  - (* DqLdTail *)
+    destruct Hc as (Hcur & Hc1).
+    destruct (N.eqb_spec cur (r_tail r)) as [e|ne]; stepped.
+    + subst ccur. stepped. mk. cgoal. reflexivity.
+    + mk. cgoal. repeat split; try assumption.
+      assert (LN (deq_of cout) < LN (enq_of (t_out p))); [|lia].
+      apply (mod_neq_lt sz); [lia|]. rewrite <- Hc1, <- R4. exact ne.
+  - (* DqLdEl *)
+    destruct Hc as (Hcur & Hc1 & Hlt). stepped. mk. cgoal. repeat split; try assumption.
+    subst cur. apply R8. lia.
+  - (* DqCF2 *) stepped. mk.
+  - (* DqStHead *)
+    destruct Hc as (Hcur & Hc1 & Hlt & Hitem). subst ccur cur. stepped.
+    assert (Hnz : item <> 0) by (subst item; apply Forall_nth_nz; assumption).
+    apply N.eqb_neq in Hnz.
+    mk; rewrite ?Hnz.
+    + rewrite R1, mod_succ by assumption. subst item. apply RInv_deq; assumption.
+    + apply pinv_deq; assumption.
+    + cgoal. reflexivity.
+  - (* DbLdHead *)
+    stepped. mk. cgoal. rewrite R1, R3, mod_succ by assumption. auto.
+  - (* DbSpin *)
+    destruct (cur =? r_tail r); stepped; mk.
+  - (* DbYield *) stepped. mk.
+  - (* DbCF1 *) stepped. mk.
+  - (* DbLdTail *)
+    destruct Hc as (Hcur & Hc1 & Hn).
+    destruct (N.eqb_spec cur (r_tail r)) as [e|ne]; stepped.
+    + mk. cgoal. auto.
+    + mk. cgoal. repeat split; try assumption.
+      assert (LN (deq_of cout) < LN (enq_of (t_out p))); [|lia].
+      apply (mod_neq_lt sz); [lia|]. rewrite <- Hc1, <- R4. exact ne.
+  - (* DbLdEl *)
+    destruct Hc as (Hcur & Hc1 & Hn & Hlt). stepped. mk. cgoal. repeat split; try assumption.
+    subst cur. apply R8. lia.
+  - (* DbCF2 *) stepped. mk.
+  - (* DbStHead *)
+    destruct Hc as (Hcur & Hn & Hlt & Hitem). subst ccur nxt. stepped.
+    mk.
+    + subst item. apply RInv_deq; assumption.
+    + apply pinv_deq; assumption.
+    + cgoal. reflexivity.
+  - (* EmLdHead *)
+    stepped. mk. cgoal. unfold enq_seq; cbn [s_p t_out]. auto.
+  - (* EmLdTail *)
+    destruct Hc as (Hcur & _). subst ccur.
+    destruct (h =? r_tail r); stepped; mk; cgoal; reflexivity.
+Qed.
+
+Lemma step_inv sz s t : sz <> 0 -> Inv sz s -> Inv sz (step' s t).
+Proof. destruct s as [r p c]; destruct t; [apply step_P|apply step_C]. Qed.
+
+Lemma run_inv sz sched : sz <> 0 -> forall s, Inv sz s -> Inv sz (run s sched).
+Proof.
+  intros Hsz. induction sched as [|t sched IH]; intros s HI; [exact HI|].
+  cbn [run fold_left]. apply IH. apply step_inv; assumption.
+Qed.
+
+Lemma init_inv size g pp cp : 1 <= size -> wf_progs pp cp -> Inv size (init size g pp cp).
+Proof.
+  intros Hsz [Hpp Hcp]. unfold init. apply Inv_intro; cbn [t_out t_ops enq_of deq_of]; try assumption;
+    try reflexivity.
+  assert (size <> 0) by lia.
+  constructor; cbn [ring_init r_size r_size2 r_head r_tail r_el length firstn]; try reflexivity;
+    try (rewrite N.mod_0_l by assumption; reflexivity); try lia.
+  constructor.
+Qed.
+
+Lemma reach_inv size g pp cp sched :
+  1 <= size -> wf_progs pp cp -> Inv size (run (init size g pp cp) sched).
+Proof. intros Hsz Hwf. apply run_inv; [lia|]. apply init_inv; assumption. Qed.
+
+(* ------------------------------------------------------------------ the theorems *)
+
+(* 1. FIFO / no loss, no duplication, no invention: what has been dequeued is a prefix of what was enqueued *)
+Theorem swsr_fifo : forall size g pp cp sched,
+  1 <= size -> wf_progs pp cp ->
+  exists rest, enq_seq (run (init size g pp cp) sched) = deq_seq (run (init size g pp cp) sched) ++ rest.
+Proof.
+  intros size g pp cp sched Hsz Hwf.
+  destruct (reach_inv size g pp cp sched Hsz Hwf) as ([R1 R2 R3 R4 R5 R6 R7 R8 R9] & _).
+  exists (skipn (length (deq_seq (run (init size g pp cp) sched))) (enq_seq (run (init size g pp cp) sched))).
+  pose proof (firstn_skipn (length (deq_seq (run (init size g pp cp) sched)))
+                (enq_seq (run (init size g pp cp) sched))) as Hfs.
+  rewrite R7 in Hfs. symmetry. exact Hfs.
+Qed.
+
+(* 2. at most size-1 undelivered elements: no slot is overwritten before it is consumed *)
+Theorem swsr_capacity : forall size g pp cp sched,
+  1 <= size -> wf_progs pp cp ->
+  let s := run (init size g pp cp) sched in
+  (length (enq_seq s) <= length (deq_seq s) + N.to_nat size - 1)%nat.
+Proof.
+  intros size g pp cp sched Hsz Hwf s.
+  destruct (reach_inv size g pp cp sched Hsz Hwf) as ([R1 R2 R3 R4 R5 R6 R7 R8 R9] & _).
+  fold s in R6. lia.
+Qed.
+
+(* 3. dequeue returns NULL only if every successfully enqueued element has been delivered *)
+Theorem swsr_deq_null_sound : forall size g pp cp sched,
+  1 <= size -> wf_progs pp cp ->
+  let s := run (init size g pp cp) sched in
+  forall cur s', t_pc (s_c s) = DqLdTail cur -> step s C = Some (s', KEnd (RPtr 0)) ->
+  deq_seq s = enq_seq s.
+Proof.
+  intros size g pp cp sched Hsz Hwf s cur s' Hpc Hstep.
+  destruct (reach_inv size g pp cp sched Hsz Hwf) as ([R1 R2 R3 R4 R5 R6 R7 R8 R9] & _ & _ & _ & Hc).
+  fold s in R1, R2, R3, R4, R5, R6, R7, R8, R9, Hc.
+  unfold cinv in Hc. rewrite Hpc in Hc. destruct Hc as (_ & Hcur).
+  unfold step in Hstep. cbn [thr] in Hstep. rewrite Hpc in Hstep.
+  destruct (N.eqb_spec cur (r_tail (s_r s))) as [e|ne]; [|discriminate Hstep].
+  rewrite Hcur, R4 in e. apply mod_window in e; try lia.
+  assert (Hlen : length (deq_seq s) = length (enq_seq s)) by lia.
+  rewrite <- R7. rewrite Hlen. apply firstn_all.
+Qed.
+
+(* 4. empty() = 1 implies that every enqueue completed before the test read head has been delivered *)
+Theorem swsr_empty_sound : forall size g pp cp sched,
+  1 <= size -> wf_progs pp cp ->
+  let s := run (init size g pp cp) sched in
+  forall t h gh s', t_pc (thr s t) = EmLdTail h gh -> step s t = Some (s', KEnd (RInt 1)) ->
+  (gh <= length (deq_seq s))%nat.
+Proof.
+  intros size g pp cp sched Hsz Hwf s t h gh s' Hpc Hstep.
+  destruct (reach_inv size g pp cp sched Hsz Hwf) as ([R1 R2 R3 R4 R5 R6 R7 R8 R9] & _ & _ & Hp & Hc).
+  fold s in R1, R2, R3, R4, R5, R6, R7, R8, R9, Hp, Hc.
+  unfold step in Hstep. rewrite Hpc in Hstep.
+  destruct (N.eqb_spec h (r_tail (s_r s))) as [e|ne]; [|discriminate Hstep].
+  rewrite R4 in e.
+  destruct t; cbn [thr] in Hpc.
+  - unfold pinv in Hp. rewrite Hpc in Hp. destruct Hp as (_ & Hg & H1 & Hh & Ha & Hb & Hd).
+    rewrite Hh in e. apply mod_window in e; try lia.
+  - unfold cinv in Hc. rewrite Hpc in Hc. destruct Hc as (_ & Hh & Hg).
+    rewrite Hh in e. apply mod_window in e; try lia.
+Qed.
+
+(* 5. dequeue_blocking completes only with the real next element *)
+Theorem swsr_deqb_real : forall size g pp cp sched,
+  1 <= size -> wf_progs pp cp ->
+  let s := run (init size g pp cp) sched in
+  forall nxt item, t_pc (s_c s) = DbStHead nxt item ->
+  (length (deq_seq s) < length (enq_seq s))%nat /\ nth (length (deq_seq s)) (enq_seq s) 0 = item.
+Proof.
+  intros size g pp cp sched Hsz Hwf s nxt item Hpc.
+  destruct (reach_inv size g pp cp sched Hsz Hwf) as (_ & _ & _ & _ & Hc).
+  fold s in Hc. unfold cinv in Hc. rewrite Hpc in Hc. destruct Hc as (_ & _ & Hlt & Hi).
+  split; [exact Hlt|symmetry; exact Hi].
+Qed.
+
+(* the same for the non-blocking dequeue *)
+Theorem swsr_deq_real : forall size g pp cp sched,
+  1 <= size -> wf_progs pp cp ->
+  let s := run (init size g pp cp) sched in
+  forall cur item, t_pc (s_c s) = DqStHead cur item ->
+  (length (deq_seq s) < length (enq_seq s))%nat /\ nth (length (deq_seq s)) (enq_seq s) 0 = item.
+Proof.
+  intros size g pp cp sched Hsz Hwf s cur item Hpc.
+  destruct (reach_inv size g pp cp sched Hsz Hwf) as (_ & _ & _ & _ & Hc).
+  fold s in Hc. unfold cinv in Hc. rewrite Hpc in Hc. destruct Hc as (_ & _ & Hlt & Hi).
+  split; [exact Hlt|symmetry; exact Hi].
+Qed.
+
+(* 6. enqueue_blocking stores the new tail only when a free slot exists *)
+Theorem swsr_enqb_free_slot : forall size g pp cp sched,
+  1 <= size -> wf_progs pp cp ->
+  let s := run (init size g pp cp) sched in
+  forall v nxt, t_pc (s_p s) = EbStTail v nxt ->
+  (length (enq_seq s) + 1 <= length (deq_seq s) + N.to_nat size - 1)%nat.
+Proof.
+  intros size g pp cp sched Hsz Hwf s v nxt Hpc.
+  destruct (reach_inv size g pp cp sched Hsz Hwf) as (_ & _ & _ & Hp & _).
+  fold s in Hp. unfold pinv in Hp. rewrite Hpc in Hp. destruct Hp as (_ & _ & _ & Hfree & _). lia.
+Qed.
+
+Theorem swsr_enq_free_slot : forall size g pp cp sched,
+  1 <= size -> wf_progs pp cp ->
+  let s := run (init size g pp cp) sched in
+  forall v nxt, t_pc (s_p s) = EnStTail v nxt ->
+  (length (enq_seq s) + 1 <= length (deq_seq s) + N.to_nat size - 1)%nat.
+Proof.
+  intros size g pp cp sched Hsz Hwf s v nxt Hpc.
+  destruct (reach_inv size g pp cp sched Hsz Hwf) as (_ & _ & _ & Hp & _).
+  fold s in Hp. unfold pinv in Hp. rewrite Hpc in Hp. destruct Hp as (_ & _ & _ & Hfree & _). lia.
+Qed.
+
+(* 7. nothing dequeued is NULL (so DeqB never returns NULL or garbage) *)
+Theorem swsr_deq_nonnull : forall size g pp cp sched,
+  1 <= size -> wf_progs pp cp ->
+  let s := run (init size g pp cp) sched in
+  Forall (fun v => v <> 0) (deq_seq s).
+Proof.
+  intros size g pp cp sched Hsz Hwf s.
+  destruct (swsr_fifo size g pp cp sched Hsz Hwf) as [rest Hrest]. fold s in Hrest.
+  destruct (reach_inv size g pp cp sched Hsz Hwf) as ([R1 R2 R3 R4 R5 R6 R7 R8 R9] & _).
+  fold s in R9. rewrite Hrest in R9. apply Forall_app in R9. exact (proj1 R9).
+Qed.
+
+(* ------------------------------------------------------------------ 8. create: the size rounding *)
+Theorem create_size_spec : forall cw ps e sz,
+  0 < ps -> ps <= cw -> create_size cw ps e = Some sz ->
+  e <= sz /\ 1 <= sz /\ sz mod cw = 0 /\ cw / ps <= sz /\ cw <= sz /\ sz <= UINT32_MAX.
+Proof.
+  intros cw ps e sz Hps Hcw Hc.
+  assert (Hps0 : ps <> 0) by lia. assert (Hcw0 : cw <> 0) by lia.
+  unfold create_size in Hc.
+  set (e1 := if e * ps <? cw then cw / ps else e) in Hc.
+  set (e2 := if negb (e1 mod cw =? 0) then e1 + (cw - e1 mod cw) else e1) in Hc.
+  assert (Hq1 : 1 <= cw / ps) by (apply N.div_le_lower_bound; [assumption|lia]).
+  assert (He1 : e <= e1 /\ cw / ps <= e1).
+  { unfold e1. destruct (N.ltb_spec (e * ps) cw) as [Hlt|Hge].
+    - split; [|lia]. apply N.div_le_lower_bound; [assumption|lia].
+    - split; [lia|]. apply N.div_le_upper_bound; [assumption|lia]. }
+  assert (He2 : e1 <= e2 /\ e2 mod cw = 0).
+  { unfold e2. destruct (N.eqb_spec (e1 mod cw) 0) as [Hz|Hnz]; cbn [negb].
+    - split; [lia|exact Hz].
+    - pose proof (N.mod_lt e1 cw Hcw0) as Hlt. split; [lia|].
+      pose proof (N.div_mod e1 cw Hcw0) as Hdm.
+      replace (e1 + (cw - e1 mod cw)) with ((e1 / cw + 1) * cw) by lia.
+      apply N.mod_mul; assumption. }
+  destruct (N.ltb_spec UINT32_MAX e2) as [Hbig|Hok]; [discriminate Hc|].
+  injection Hc as Hsz. rewrite <- Hsz.
+  destruct He1 as [Ha Hb]. destruct He2 as [Hc' Hd].
+  assert (Hcwle : cw <= e2).
+  { pose proof (N.div_mod e2 cw Hcw0) as Hdm. rewrite Hd in Hdm.
+    destruct (N.eq_dec (e2 / cw) 0) as [Hz|Hnz]; [rewrite Hz in Hdm; lia|nia]. }
+  repeat split; try assumption; lia.
+Qed.
+
+Corollary create_size_ge2 : forall cw ps e sz,
+  0 < ps -> 2 * ps <= cw -> create_size cw ps e = Some sz -> 2 <= sz.
+Proof.
+  intros cw ps e sz Hps Hcw Hc.
+  destruct (create_size_spec cw ps e sz Hps ltac:(lia) Hc) as (_ & _ & _ & _ & Hle & _). lia.
+Qed.
+
+(* with the real constants (CACHELINE_WIDTH = 64, sizeof(void* ) = 8) a created ring satisfies the premise
+   [1 <= size] of the theorems above *)
+Corollary create_size_premise : forall e sz, create_size 64 8 e = Some sz -> 1 <= sz /\ 64 <= sz.
+Proof.
+  intros e sz Hc.
+  destruct (create_size_spec 64 8 e sz ltac:(lia) ltac:(lia) Hc) as (_ & H1 & _ & _ & Hle & _).
+  split; assumption.
+Qed.
+
+(* ------------------------------------------------------------------ 9. the hypotheses are satisfiable *)
+Fixpoint sched_rep {A} (n : nat) (l : list A) : list A := match n with O => [] | S k => l ++ sched_rep k l end.
+
+Definition ex_garbage : N -> N := fun _ => 999.
+Definition ex_pp := [EnqB 1; EnqB 2; EnqB 3; EnqB 4; EnqB 5; EnqB 6].
+Definition ex_cp := [DeqB; DeqB; DeqB; DeqB; DeqB; DeqB].
+
+(* ring of size 4 (3 usable slots): the consumer first spins on the empty ring, the producer fills the ring and
+   spins on the full ring, then both make progress and the indices wrap (6 elements through 4 slots)          *)
+Definition ex_sched : list tid := sched_rep 5 [C] ++ sched_rep 40 [P] ++ sched_rep 20 [C] ++ sched_rep 60 [P; P; C] ++ sched_rep 40 [C].
+
+Example ex_full_ring :
+  let s := run (init 4 ex_garbage ex_pp ex_cp) (sched_rep 5 [C] ++ sched_rep 40 [P]) in
+  (enq_seq s, deq_seq s, r_head (s_r s), r_tail (s_r s), t_pc (s_p s), t_pc (s_c s), contents (s_r s)) =
+  ([1; 2; 3], [], 0, 3, EbSpin 4 3 0, DbYield 0 1, [1; 2; 3]).
+Proof. vm_compute. reflexivity. Qed.
+
+Example ex_wrap :
+  let s := run (init 4 ex_garbage ex_pp ex_cp) ex_sched in
+  (deq_seq s, enq_seq s, r_head (s_r s), r_tail (s_r s), t_pc (s_p s), t_pc (s_c s)) =
+  ([1; 2; 3; 4; 5; 6], [1; 2; 3; 4; 5; 6], 2, 2, Idle, Idle).
+Proof. vm_compute. reflexivity. Qed.
+
+(* hypothesis of swsr_deqb_real is reachable *)
+Example ex_reach_DbStHead :
+  let s := run (init 4 ex_garbage [EnqB 7] [DeqB]) (sched_rep 8 [P] ++ sched_rep 7 [C]) in
+  t_pc (s_c s) = DbStHead 1 7 /\ enq_seq s = [7] /\ deq_seq s = [].
+Proof. vm_compute. auto. Qed.
+
+(* hypothesis of swsr_enqb_free_slot is reachable *)
+Example ex_reach_EbStTail :
+  let s := run (init 4 ex_garbage [EnqB 7] [DeqB]) (sched_rep 7 [P]) in
+  t_pc (s_p s) = EbStTail 7 1.
+Proof. vm_compute. reflexivity. Qed.
+
+(* hypotheses of swsr_empty_sound are reachable, for either thread, with a non-zero ghost *)
+Example ex_reach_EmLdTail_P :
+  let s := run (init 4 ex_garbage [EnqB 7; Emp] [DeqB]) (sched_rep 8 [P] ++ sched_rep 8 [C] ++ sched_rep 2 [P]) in
+  t_pc (thr s P) = EmLdTail 1 1 /\
+  (exists s', step s P = Some (s', KEnd (RInt 1))) /\ deq_seq s = [7].
+Proof. vm_compute. split; [reflexivity|]. split; [eexists; reflexivity|reflexivity]. Qed.
+
+Example ex_reach_EmLdTail_C :
+  let s := run (init 4 ex_garbage [EnqB 7] [DeqB; Emp]) (sched_rep 8 [P] ++ sched_rep 10 [C]) in
+  t_pc (thr s C) = EmLdTail 1 1 /\
+  (exists s', step s C = Some (s', KEnd (RInt 1))) /\ deq_seq s = [7].
+Proof. vm_compute. split; [reflexivity|]. split; [eexists; reflexivity|reflexivity]. Qed.
+
+(* hypotheses of swsr_deq_null_sound are reachable *)
+Example ex_reach_DqLdTail :
+  let s := run (init 4 ex_garbage [Emp] [Deq]) [C; C; C] in
+  t_pc (s_c s) = DqLdTail 0 /\ (exists s', step s C = Some (s', KEnd (RPtr 0))).
+Proof. vm_compute. split; [reflexivity|eexists; reflexivity]. Qed.
